@@ -47,6 +47,7 @@ struct v_stream {
     char   mode[4];
     const char *content; size_t len, pos;
     int    err, eof;
+    int    bufmode;           /* _IOFBF (default for files), _IOLBF, _IONBF */
     size_t pending;           /* bytes accepted by stdio but not yet handed to the OS */
     int    os_writes;         /* write() system calls issued on the descriptor */
     size_t os_bytes;
